@@ -254,13 +254,13 @@ theorem Held.register {s : St} {t : Nat} (h : Held s t) (rl wl xl : List Nat) (t
 
 /-- `Again.execute`: the held task blocks, a new sub-task is pushed on the front of the ready deque -/
 theorem Held.spawn {s : St} {t : Nat} (h : Held s t) (k : Nat) :
-    Inv (Pox.Recoco.fastSchedule { s with tasks := s.tasks ++ [{ kind := .sub k t }] } s.tasks.length true) := by
+    Inv (Pox.Recoco.fastSchedule { s with tasks := s.tasks ++ [{ kind := .sub k t, prio := prioOf s t }] } s.tasks.length true) := by
   have hfresh : s.tasks.length ∉ t :: (s.ready ++ (incTids s ++ hubTids s)) := fun hm => by
     have := h.2.live _ hm; rw [stL_fresh] at this; cases this
   have hnr : s.tasks.length ∉ s.ready := fun hm => hfresh (List.mem_cons_of_mem _ (List.mem_append_left _ hm))
   unfold Pox.Recoco.fastSchedule
   rw [if_neg hnr]
-  have := h.2.spawn (c := s.tasks.length) (k := k) (stL_fresh _) (stL_push s.tasks { kind := .sub k t }) (kdL_push s.tasks { kind := .sub k t })
+  have := h.2.spawn (c := s.tasks.length) (k := k) (stL_fresh _) (stL_push s.tasks { kind := .sub k t, prio := prioOf s t }) (kdL_push s.tasks { kind := .sub k t, prio := prioOf s t })
   refine (Inv.of_running_none ?hr).mpr (this.perm (List.Perm.of_eq ?_))
   case hr => exact h.1
   simp [incTids, hubTids]
@@ -366,10 +366,10 @@ theorem Held.timerStep {s : St} {t : Nat} (h : Held s t) (j pc : Nat) : Inv (tim
 theorem kdL_of_get {l : List Task} {t : Nat} {tk : Task} (h : l[t]? = some tk) : kdL l t = some tk.kind := by
   simp [kdL, h]
 
-theorem Held.resumeGen (cfg : Cfg) {s : St} {t : Nat} {tk : Task} (h : Held s t) (ht : s.tasks[t]? = some tk) (r : Recv) :
-    Inv (resumeGen cfg s t tk r) := by
+theorem Held.resumeGen (cfg : Cfg) {s : St} {t : Nat} {tk : Task} (h : Held s t) (ht : s.tasks[t]? = some tk) (r : Recv) (raw : Val) :
+    Inv (resumeGen cfg s t tk r raw) := by
   have h0 : Held { Pox.Recoco.setTask s t (fun k => { k with pc := k.pc + 1, wake := none }) with
-                   trace := s.trace ++ [.step t tk.pc s.now r tk.wake] } t := by held h
+                   trace := s.trace ++ [.step t tk.pc s.now r raw tk.wake] } t := by held h
   have hk0 := kdL_of_get ht
   unfold Pox.Recoco.resumeGen
   simp only
@@ -402,14 +402,92 @@ theorem Held.execPre (cfg : Cfg) {s : St} {t : Nat} (h : Held s t) (tk : Task) :
     | (simp only [PreOK]; held h)
     | (simp only [PreOK]; refine Held.register ?_ _ _ _ _; held h)
 
+/-- the lottery only rotates the ready deque: the chosen task and what is left are a permutation of what was there -/
+theorem lottery_perm (s : List Task) : ∀ (ds r : List Nat) {t : Nat} {r' ds' : List Nat},
+    lottery s ds r = some (t, r', ds') → (t :: r').Perm r := by
+  intro ds
+  induction ds with
+  | nil =>
+    intro r t r' ds' h
+    cases r with
+    | nil => simp [lottery] at h
+    | cons a rest =>
+      simp only [lottery] at h
+      split at h
+      · simp at h; obtain ⟨rfl, rfl, _⟩ := h; exact List.Perm.refl _
+      · split at h
+        · simp at h; obtain ⟨rfl, rfl, _⟩ := h; subst_vars; exact List.Perm.refl _
+        · simp at h; obtain ⟨rfl, rfl, _⟩ := h; exact List.Perm.refl _
+  | cons d ds ih =>
+    intro r t r' ds' h
+    cases r with
+    | nil => simp [lottery] at h
+    | cons a rest =>
+      simp only [lottery] at h
+      split at h
+      · simp at h; obtain ⟨rfl, rfl, _⟩ := h; exact List.Perm.refl _
+      · split at h
+        · simp at h; obtain ⟨rfl, rfl, _⟩ := h; subst_vars; exact List.Perm.refl _
+        · split at h
+          · simp at h; obtain ⟨rfl, rfl, _⟩ := h; exact List.Perm.refl _
+          · have := ih (rest ++ [a]) h
+            exact this.trans (by simp [List.perm_append_singleton])
+
+/-- a task of priority >= 1 at the head of the deque is taken without a draw -/
+theorem lottery_head (s : List Task) (ds : List Nat) (t : Nat) (rest : List Nat) (h : 8 ≤ prioL s t) :
+    lottery s ds (t :: rest) = some (t, rest, ds) := by
+  cases ds <;> simp [lottery, h]
+
+theorem lottery_none (s : List Task) (ds r : List Nat) (h : lottery s ds r = none) : r = [] := by
+  induction ds generalizing r with
+  | nil =>
+    cases r with
+    | nil => rfl
+    | cons a rest =>
+      simp only [lottery] at h
+      repeat' split at h
+      all_goals cases h
+  | cons d ds ih =>
+    cases r with
+    | nil => rfl
+    | cons a rest =>
+      simp only [lottery] at h
+      repeat' split at h
+      all_goals first
+        | cases h
+        | (have := ih _ h; simp at this)
+
+@[simp] theorem length_applyPrios : ∀ (l : List Task) (ps : List Nat), (applyPrios l ps).length = l.length
+  | [], [] => rfl
+  | [], _ :: _ => rfl
+  | _ :: _, [] => rfl
+  | _ :: r, _ :: ps => by simp [applyPrios, length_applyPrios r ps]
+
+theorem applyPrios_map {β} (g : Task → β) (hg : ∀ k p, g { k with prio := p } = g k) :
+    ∀ (l : List Task) (ps : List Nat), (applyPrios l ps).map g = l.map g
+  | [], [] => rfl
+  | [], _ :: _ => rfl
+  | _ :: _, [] => rfl
+  | k :: r, p :: ps => by simp [applyPrios, hg, applyPrios_map g hg r ps]
+
+theorem applyPrios_get {β} (g : Task → β) (hg : ∀ k p, g { k with prio := p } = g k) (l : List Task) (ps : List Nat) (t : Nat) :
+    ((applyPrios l ps)[t]?).map g = (l[t]?).map g := by
+  have := congrArg (fun m => m[t]?) (applyPrios_map g hg l ps)
+  simpa using this
+
 theorem Inv.cyclePop {s : St} (h : Inv s) : Inv (cyclePop s) := by
   unfold Pox.Recoco.cyclePop
   split
-  · rename_i t rest hr hrd
-    have := h
-    simp only [Inv, places, hr, hrd, incTids, hubTids, Option.toList, List.nil_append, List.cons_append] at this ⊢
-    exact this
   · exact h
+  · rename_i hr
+    split
+    · exact h
+    · rename_i t rest ds hl
+      have hp := lottery_perm _ _ _ hl
+      refine InvA.perm (pl := places s) ?_ ?_
+      · exact h
+      · simp only [places, hr, incTids, hubTids, Option.toList, List.nil_append, List.cons_append]
+        exact (List.Perm.append_right _ hp)
 
 theorem Inv.cycleExec (cfg : Cfg) {s : St} (h : Inv s) : Inv (cycleExec cfg s) := by
   unfold Pox.Recoco.cycleExec
@@ -433,7 +511,7 @@ theorem Inv.cycleExec (cfg : Cfg) {s : St} (h : Inv s) : Inv (cycleExec cfg s) :
         split
         · have hp' : Held s1 t := hp
           held hp'.block
-        · rename_i tk1 htk1; exact Held.resumeGen cfg hp htk1 r
+        · rename_i tk1 htk1; exact Held.resumeGen cfg hp htk1 r _
 
 
 /-! ### the select hub -/
@@ -600,48 +678,57 @@ theorem Inv.run (cfg : Cfg) : ∀ (n : Nat) {s : St}, Inv s → Inv (run cfg n s
   | 0, _, h => h
   | n + 1, _, h => Inv.run cfg n (h.iter cfg)
 
-theorem initSt_tasks_get (t0 : Nat) (tasks : List Nat) (timers : List TimerCfg) (ss rs : List (Option Nat)) (t : Nat) :
-    ∀ tk, (initSt t0 tasks timers ss rs).tasks[t]? = some tk →
+/-- the initial task table seen through any projection that ignores the priority -/
+theorem initSt_view {β} (g : Task → β) (hg : ∀ k p, g { k with prio := p } = g k)
+    (t0 : Nat) (tasks : List Nat) (timers : List TimerCfg) (ss rs : List (Option Nat)) (ps ds : List Nat) :
+    (initSt t0 tasks timers ss rs ps ds).tasks.map g =
+      tasks.map (fun k => g { kind := .top k }) ++ (List.range timers.length).map (fun j => g { kind := .timer j }) := by
+  simp [initSt, applyPrios_map g hg, List.map_map, Function.comp_def]
+
+theorem initSt_tasks_get (t0 : Nat) (tasks : List Nat) (timers : List TimerCfg) (ss rs : List (Option Nat)) (ps ds : List Nat) (t : Nat) :
+    ∀ tk, (initSt t0 tasks timers ss rs ps ds).tasks[t]? = some tk →
       t < tasks.length + timers.length ∧ tk.st = .live ∧ (∀ k p, tk.kind ≠ .sub k p) := by
-  intro tk h
-  simp only [initSt, List.getElem?_append, List.length_map, List.getElem?_map, List.length_range] at h
+  intro tk h0
+  have h : ((initSt t0 tasks timers ss rs ps ds).tasks.map (fun k => (k.st, k.kind)))[t]? = some (tk.st, tk.kind) := by simp [h0]
+  rw [initSt_view (fun k => (k.st, k.kind)) (fun _ _ => rfl)] at h
+  simp only [List.getElem?_append, List.length_map, List.getElem?_map, List.length_range] at h
   split at h
   · rename_i hlt
     cases hg : tasks[t]? with
     | none => simp [hg] at h
-    | some k => simp [hg] at h; subst h; exact ⟨by omega, rfl, by simp⟩
+    | some k => simp [hg] at h; exact ⟨by omega, h.1.symm, by rw [← h.2]; simp⟩
   · cases hg : (List.range timers.length)[t - tasks.length]? with
     | none => simp [hg] at h
     | some j =>
-      simp [hg] at h; subst h
+      simp [hg] at h
       have := List.getElem?_eq_some_iff.mp hg
       obtain ⟨hlt, _⟩ := this
       simp at hlt
-      exact ⟨by omega, rfl, by simp⟩
+      exact ⟨by omega, h.1.symm, by rw [← h.2]; simp⟩
 
-theorem Inv.init (t0 : Nat) (tasks : List Nat) (timers : List TimerCfg) (ss rs : List (Option Nat)) :
-    Inv (initSt t0 tasks timers ss rs) := by
-  have hpl : places (initSt t0 tasks timers ss rs) = List.range (tasks.length + timers.length) := by
+theorem Inv.init (t0 : Nat) (tasks : List Nat) (timers : List TimerCfg) (ss rs : List (Option Nat)) (ps ds : List Nat) :
+    Inv (initSt t0 tasks timers ss rs ps ds) := by
+  have hpl : places (initSt t0 tasks timers ss rs ps ds) = List.range (tasks.length + timers.length) := by
     simp [places, initSt, incTids, hubTids]
   refine ⟨by rw [hpl]; exact List.nodup_range, ?_, ?_, ?_⟩
   · intro t ht
     rw [hpl, List.mem_range] at ht
-    have hlen : (initSt t0 tasks timers ss rs).tasks.length = tasks.length + timers.length := by simp [initSt]
-    have hsome : ∃ tk, (initSt t0 tasks timers ss rs).tasks[t]? = some tk :=
+    have hlen : (initSt t0 tasks timers ss rs ps ds).tasks.length = tasks.length + timers.length := by simp [initSt]
+    have hsome : ∃ tk, (initSt t0 tasks timers ss rs ps ds).tasks[t]? = some tk :=
       ⟨_, List.getElem?_eq_getElem (by omega)⟩
     obtain ⟨tk, htk⟩ := hsome
     simp only [stL, htk, Option.map_some]
-    rw [(initSt_tasks_get _ _ _ _ _ _ tk htk).2.1]
+    rw [(initSt_tasks_get _ _ _ _ _ _ _ _ tk htk).2.1]
   · intro c k p hk
     simp only [kdL] at hk
-    cases htk : (initSt t0 tasks timers ss rs).tasks[c]? with
+    cases htk : (initSt t0 tasks timers ss rs ps ds).tasks[c]? with
     | none => simp [htk] at hk
-    | some tk => simp [htk] at hk; exact absurd hk ((initSt_tasks_get _ _ _ _ _ _ tk htk).2.2 k p)
+    | some tk => simp [htk] at hk; exact absurd hk ((initSt_tasks_get _ _ _ _ _ _ _ _ tk htk).2.2 k p)
   · intro c c' k k' p hk
     simp only [kdL] at hk
-    cases htk : (initSt t0 tasks timers ss rs).tasks[c]? with
+    cases htk : (initSt t0 tasks timers ss rs ps ds).tasks[c]? with
     | none => simp [htk] at hk
-    | some tk => simp [htk] at hk; exact absurd hk ((initSt_tasks_get _ _ _ _ _ _ tk htk).2.2 k p)
+    | some tk => simp [htk] at hk; exact absurd hk ((initSt_tasks_get _ _ _ _ _ _ _ _ tk htk).2.2 k p)
 
 
 /-! ## Part 2: frames of the hub side, program order
@@ -763,7 +850,7 @@ def pcC (cl : List (Kind × Nat × Status)) (t : Nat) : Nat :=
   | none => 0
 
 def stepIdx (t : Nat) : Ev → Option Nat
-  | .step t' i _ _ _ => if t' = t then some i else none
+  | .step t' i _ _ _ _ => if t' = t then some i else none
   | .fire _ _ _ => none
 
 /-- the program a task's generator executes (timers have their own fixed body) -/
@@ -826,8 +913,8 @@ theorem POv.push {cfg ex tr cl} (h : POv cfg ex tr cl) (kd : Kind) : POv cfg ex 
 
 /-- the generator of `t` is resumed: one more step event, `pc + 1`; `t` becomes the exempt task -/
 theorem POv.step {cfg tr cl} (h : POv cfg none tr cl) (t : Nat) (c : Kind × Nat × Status) (hc : cl[t]? = some c)
-    (hl : c.2.2 = .live) (tm : Nat) (r : Recv) (w : Option (Nat × Bool)) :
-    POv cfg (some t) (tr ++ [.step t c.2.1 tm r w]) (cl.modify t (fun c => (c.1, c.2.1 + 1, c.2.2))) := by
+    (hl : c.2.2 = .live) (tm : Nat) (r : Recv) (raw : Val) (w : Option (Nat × Bool)) :
+    POv cfg (some t) (tr ++ [.step t c.2.1 tm r raw w]) (cl.modify t (fun c => (c.1, c.2.1 + 1, c.2.2))) := by
   refine ⟨fun u => ?_, fun u c' prog hc' hp => ?_⟩
   · rw [List.filterMap_append, h.idx u]
     simp only [pcC, List.getElem?_modify, List.filterMap_cons, List.filterMap_nil, stepIdx]
@@ -1036,11 +1123,11 @@ theorem POx.subOut {cfg} {fx : Bool} {s : St} {t k p : Nat} {prog : List Y} (h :
       · exact rest y hg
 
 theorem PO.resumeGen {cfg : Cfg} {s : St} {t : Nat} {tk : Task} (h : PO cfg s) (ht : s.tasks[t]? = some tk)
-    (hl : tk.st = .live) (r : Recv) : PO cfg (resumeGen cfg s t tk r) := by
+    (hl : tk.st = .live) (r : Recv) (raw : Val) : PO cfg (resumeGen cfg s t tk r raw) := by
   -- the step event and `pc + 1`
   have h0 : POx cfg (some t) { Pox.Recoco.setTask s t (fun k => { k with pc := k.pc + 1, wake := none }) with
-                   trace := s.trace ++ [.step t tk.pc s.now r tk.wake] } := by
-    have := POv.step h t (ctl tk) (ctl_get ht) hl s.now r tk.wake
+                   trace := s.trace ++ [.step t tk.pc s.now r raw tk.wake] } := by
+    have := POv.step h t (ctl tk) (ctl_get ht) hl s.now r raw tk.wake
     simp only [POx, setTask_tasks]
     have e : (s.tasks.modify t (fun k => { k with pc := k.pc + 1, wake := none })).map ctl
         = (s.tasks.map ctl).modify t (fun c => (c.1, c.2.1 + 1, c.2.2)) := by
@@ -1052,7 +1139,7 @@ theorem PO.resumeGen {cfg : Cfg} {s : St} {t : Nat} {tk : Task} (h : PO cfg s) (
       | some a => by_cases e : t = i <;> simp [e, ctl]
     rw [e]; exact this
   have ht0 : (({ Pox.Recoco.setTask s t (fun k => { k with pc := k.pc + 1, wake := none }) with
-                   trace := s.trace ++ [.step t tk.pc s.now r tk.wake] } : St).tasks.map ctl)[t]?
+                   trace := s.trace ++ [.step t tk.pc s.now r raw tk.wake] } : St).tasks.map ctl)[t]?
       = some (tk.kind, tk.pc + 1, tk.st) := by
     simp [List.getElem?_modify, ht, ctl]
   unfold Pox.Recoco.resumeGen
@@ -1119,7 +1206,7 @@ theorem PO.cycleExec {cfg : Cfg} {s : St} (hi : Inv s) (h : PO cfg s) : PO cfg (
         split
         · po hp
         · rename_i tk1 htk1
-          refine PO.resumeGen hp htk1 ?_ r
+          refine PO.resumeGen hp htk1 ?_ r _
           have e1 := ctl_get htk1
           have e2 := ctl_get (l := s.tasks) htk
           simp only at hc
@@ -1134,7 +1221,9 @@ theorem PO.cycle {cfg : Cfg} {s : St} (hi : Inv s) (h : PO cfg s) : PO cfg (cycl
   unfold Pox.Recoco.cyclePop
   split
   · po h
-  · po h
+  · split
+    · po h
+    · po h
 
 theorem HubFr.ctl_eq {s s' : St} (h : HubFr s s') : s'.tasks.map Pox.Recoco.ctl = s.tasks.map Pox.Recoco.ctl := by
   have e : ∀ l : List Task, l.map Pox.Recoco.ctl = (l.map eraseRv).map Pox.Recoco.ctl := by
@@ -1159,11 +1248,12 @@ theorem PO.run (cfg : Cfg) : ∀ (n : Nat) {s : St}, Inv s → PO cfg s → PO c
   | 0, _, _, h => h
   | n + 1, _, hi, h => PO.run cfg n (hi.iter cfg) (PO.iter hi h)
 
-theorem PO.init (cfg : Cfg) (t0 : Nat) (tasks : List Nat) (timers : List TimerCfg) (ss rs : List (Option Nat)) :
-    PO cfg (initSt t0 tasks timers ss rs) := by
-  have hpc : ∀ (t : Nat) (c : Kind × Nat × Status), ((initSt t0 tasks timers ss rs).tasks.map ctl)[t]? = some c → c.2.1 = 0 := by
+theorem PO.init (cfg : Cfg) (t0 : Nat) (tasks : List Nat) (timers : List TimerCfg) (ss rs : List (Option Nat)) (ps ds : List Nat) :
+    PO cfg (initSt t0 tasks timers ss rs ps ds) := by
+  have hpc : ∀ (t : Nat) (c : Kind × Nat × Status), ((initSt t0 tasks timers ss rs ps ds).tasks.map ctl)[t]? = some c → c.2.1 = 0 := by
     intro t c hc
-    simp only [initSt, List.map_append, List.map_map, List.getElem?_append, List.getElem?_map, List.length_map] at hc
+    rw [initSt_view ctl (fun _ _ => rfl)] at hc
+    simp only [List.getElem?_append, List.getElem?_map, List.length_map] at hc
     split at hc
     · cases h : tasks[t]? with
       | none => simp [h] at hc
@@ -1173,7 +1263,7 @@ theorem PO.init (cfg : Cfg) (t0 : Nat) (tasks : List Nat) (timers : List TimerCf
       | some k => simp [h, ctl] at hc; rw [← hc]
   refine ⟨fun t => ?_, fun t c prog hc _ => ?_⟩
   · simp only [pcC]
-    cases h : ((initSt t0 tasks timers ss rs).tasks.map ctl)[t]? with
+    cases h : ((initSt t0 tasks timers ss rs ps ds).tasks.map ctl)[t]? with
     | none => simp [initSt]
     | some c => simp [hpc t c h, initSt]
   · rw [hpc t c hc]; exact ⟨by omega, fun _ _ => by omega⟩
@@ -1182,7 +1272,7 @@ theorem PO.init (cfg : Cfg) (t0 : Nat) (tasks : List Nat) (timers : List TimerCf
 /-! ## Part 3: a timed wait is never resumed early -/
 
 /-- resumed now, would the generator be sent the timeout value `([],[],[])`? -/
-def plainTimeout (k : Task) : Prop := k.rf = none ∧ k.re = none ∧ k.rv = timeoutVal
+def plainTimeout (k : Task) : Prop := k.rv = timeoutVal
 
 def wkL (l : List Task) (t : Nat) : Option (Nat × Bool) := (l[t]?).bind (·.wake)
 def ptL (l : List Task) (t : Nat) : Prop := ∃ k, l[t]? = some k ∧ plainTimeout k
@@ -1370,7 +1460,7 @@ theorem stL_some {l : List Task} {t : Nat} (h : stL l t = some .live) : ∃ k, l
   | some k => exact ⟨k, rfl⟩
 
 def evOK : Ev → Prop
-  | .step _ _ tm r (some (w, fds)) => (fds = false ∨ r = .val timeoutVal) → w ≤ tm
+  | .step _ _ tm _ raw (some (w, fds)) => (fds = false ∨ raw = timeoutVal) → w ≤ tm
   | _ => True
 
 def ents (s : St) : List HubEntry := s.incoming ++ s.hub
@@ -1414,7 +1504,7 @@ theorem NEx.hubDelReturn {s : St} (h : NEx [] s) (hi : Inv s) (t : Nat) (v : Val
       simp only [List.getElem?_modify] at hk
       cases hs : s.tasks[t]? with
       | none => simp [hs] at hk
-      | some k0 => simp [hs] at hk; subst hk; exact hp.2.2
+      | some k0 => simp [hs] at hk; subst hk; exact hp
     · rw [ents_tids]; exact List.mem_append_right _ hm
   · exact ⟨h.1, h.2⟩
 
@@ -1979,7 +2069,7 @@ theorem ptL_push (l : List Task) (tk : Task) : ∀ u, u ≠ l.length → (ptL (l
 
 /-- `Again.execute`: the held task blocks (it has no wake time), the new sub-task goes to the front of the ready deque -/
 theorem NEx.spawn {s : St} {t : Nat} (h : NEx [t] s) (hh : Held s t) (hw : wkL s.tasks t = none) (k : Nat) :
-    NEx [] (Pox.Recoco.fastSchedule { s with tasks := s.tasks ++ [{ kind := .sub k t }] } s.tasks.length true) := by
+    NEx [] (Pox.Recoco.fastSchedule { s with tasks := s.tasks ++ [{ kind := .sub k t, prio := prioOf s t }] } s.tasks.length true) := by
   have hfresh : s.tasks.length ∉ t :: (s.ready ++ (incTids s ++ hubTids s)) := fun hm => by
     have := hh.2.live _ hm; rw [stL_fresh] at this; cases this
   have hnr : s.tasks.length ∉ s.ready := fun hm => hfresh (List.mem_cons_of_mem _ (List.mem_append_left _ hm))
@@ -1989,7 +2079,7 @@ theorem NEx.spawn {s : St} {t : Nat} (h : NEx [t] s) (hh : Held s t) (hw : wkL s
   simp only [ents, if_true]
   have h0 := (h.blockT hw).1
   refine (NEA.push (c := s.tasks.length) (rdy' := s.tasks.length :: s.ready)
-    (pt' := ptL (s.tasks ++ [{ kind := .sub k t }])) (st' := stL (s.tasks ++ [{ kind := .sub k t }])) h0 ?_ ?_ ?_ ?_).congr'
+    (pt' := ptL (s.tasks ++ [{ kind := .sub k t, prio := prioOf s t }])) (st' := stL (s.tasks ++ [{ kind := .sub k t, prio := prioOf s t }])) h0 ?_ ?_ ?_ ?_).congr'
       (wkL_push _ _ rfl) (fun _ => Iff.rfl) (fun _ => rfl)
   · simp [wkL]
   · intro u; simp
@@ -2043,7 +2133,7 @@ macro_rules
 theorem NEx.doYield {s : St} {t : Nat} (h : NEx [t] s) (hh : Held s t) (hw : wkL s.tasks t = none) (y : Y) :
     NEx [] (doYield s t y) := by
   have rfSet : ∀ (rf : Rf), NEx [t] (setTask s t (fun k => { k with rf := some rf })) ∧ Held (setTask s t (fun k => { k with rf := some rf })) t :=
-    fun rf => ⟨h.modPt _ (fun _ => rfl) (fun _ => rfl) (fun k hp => by simp [plainTimeout] at hp), by held hh⟩
+    fun rf => ⟨h.modPt _ (fun _ => rfl) (fun _ => rfl) (fun k hp => hp), by held hh⟩
   have wkSet : ∀ w, (w = 0 ∨ w < s.now) →
       NEx [] (Pox.Recoco.fastSchedule (setTask s t (fun k => { k with wake := some (w, false) })) t false) := by
     intro w hwl
@@ -2167,7 +2257,7 @@ theorem PreFr.setSelf {s : St} {t : Nat} {tk : Task} (ht : s.tasks[t]? = some tk
 def PreNE (s : St) (t : Nat) (tk : Task) : ExecPre × St → Prop
   | (.abort, s1) => NEx [] s1
   | (.raised _, s1) => NEx [t] s1
-  | (.resume r, s1) => PreFr s s1 t tk ∧ (r = .val timeoutVal → plainTimeout tk)
+  | (.resume _, s1) => PreFr s s1 t tk
 
 theorem NEx.execPre (cfg : Cfg) {s : St} {t : Nat} {tk : Task} (h : NEx [t] s) (hh : Held s t) (ht : s.tasks[t]? = some tk) :
     PreNE s t tk (execPre cfg s t tk) := by
@@ -2185,15 +2275,13 @@ theorem NEx.execPre (cfg : Cfg) {s : St} {t : Nat} {tk : Task} (h : NEx [t] s) (
   · -- Recv
     split
     · split
-      · exact ⟨PreFr.setSelf ht _ rfl rfl rfl rfl, fun hr => by simp [timeoutVal] at hr⟩
-      · refine ⟨frR _ _ rfl rfl rfl rfl, fun hr => ?_⟩
-        simp only [Recv.val.injEq, recvValue] at hr
-        split at hr <;> simp [timeoutVal] at hr
+      · exact PreFr.setSelf ht _ rfl rfl rfl rfl
+      · exact frR _ _ rfl rfl rfl rfl
     · exact h
   · -- Send
     split
     · split
-      · exact ⟨PreFr.setSelf ht _ rfl rfl rfl rfl, fun hr => by simp [timeoutVal] at hr⟩
+      · exact PreFr.setSelf ht _ rfl rfl rfl rfl
       · split
         · split
           · show NEx [] _
@@ -2203,21 +2291,19 @@ theorem NEx.execPre (cfg : Cfg) {s : St} {t : Nat} {tk : Task} (h : NEx [t] s) (
           · show NEx [t] _
             nex h
         · split
-          · exact ⟨frS _ _ rfl rfl rfl rfl, fun hr => by simp [timeoutVal] at hr⟩
+          · exact frS _ _ rfl rfl rfl rfl
           · show NEx [] _
             refine NEx.register (NEx.modPt (s := { s with sendScript := _ }) ?_ _ ?_ ?_ ?_) ?_ _ _ _ _
             · nex h
             · intro _; rfl
             · intro _; rfl
-            · intro k hp; simp [plainTimeout] at hp
+            · intro k hp; exact hp
             · held hh
     · exact h
   · split
     · rename_i e he
-      exact ⟨PreFr.setSelf ht _ rfl rfl rfl rfl, fun hr => by cases hr⟩
-    · refine ⟨PreFr.setSelf ht _ rfl rfl rfl rfl, fun hr => ?_⟩
-      simp only [Recv.val.injEq] at hr
-      exact ⟨by assumption, by assumption, hr⟩
+      exact PreFr.setSelf ht _ rfl rfl rfl rfl
+    · exact PreFr.setSelf ht _ rfl rfl rfl rfl
 
 
 theorem wkL_of_get {l l' : List Task} {u : Nat} (h : l'[u]? = l[u]?) : wkL l' u = wkL l u := by simp [wkL, h]
@@ -2251,21 +2337,21 @@ theorem NEx.resume {s s1 : St} {t : Nat} {tk : Task} (h : NEx [t] s) (hh : Held 
       rw [stL_of_get (hget u e)] at hl
       exact h.1.blocked u hl hnp
 
-theorem NEx.resumeGen (cfg : Cfg) {s : St} {t : Nat} {tk : Task} (r : Recv)
+theorem NEx.resumeGen (cfg : Cfg) {s : St} {t : Nat} {tk : Task} (r : Recv) (raw : Val)
     (h : NEx [t] (setTask s t (fun k => { k with pc := k.pc + 1, wake := none })))
-    (hev : evOK (.step t tk.pc s.now r tk.wake)) (hh : Held s t) (ht : s.tasks[t]? = some tk) :
-    NEx [] (resumeGen cfg s t tk r) := by
+    (hev : evOK (.step t tk.pc s.now r raw tk.wake)) (hh : Held s t) (ht : s.tasks[t]? = some tk) :
+    NEx [] (resumeGen cfg s t tk r raw) := by
   have h0 : NEx [t] { setTask s t (fun k => { k with pc := k.pc + 1, wake := none }) with
-                   trace := s.trace ++ [.step t tk.pc s.now r tk.wake] } := by
+                   trace := s.trace ++ [.step t tk.pc s.now r raw tk.wake] } := by
     refine ⟨h.1, ?_⟩
     intro ev hev'
     rcases List.mem_append.mp hev' with h1 | h1
     · exact h.2 ev h1
     · simp only [List.mem_singleton] at h1; subst h1; exact hev
   have hh0 : Held { setTask s t (fun k => { k with pc := k.pc + 1, wake := none }) with
-                   trace := s.trace ++ [.step t tk.pc s.now r tk.wake] } t := by held hh
+                   trace := s.trace ++ [.step t tk.pc s.now r raw tk.wake] } t := by held hh
   have hw0 : wkL ({ setTask s t (fun k => { k with pc := k.pc + 1, wake := none }) with
-                   trace := s.trace ++ [.step t tk.pc s.now r tk.wake] } : St).tasks t = none :=
+                   trace := s.trace ++ [.step t tk.pc s.now r raw tk.wake] } : St).tasks t = none :=
     wkL_setWake_none _ (fun _ => rfl)
   have hk0 := kdL_of_get ht
   unfold Pox.Recoco.resumeGen
@@ -2277,7 +2363,7 @@ theorem NEx.resumeGen (cfg : Cfg) {s : St} {t : Nat} {tk : Task} (r : Recv)
   · rename_i k p hkind
     have hk1 : kdL s.tasks t = some (.sub k p) := by rw [hk0, hkind]
     have hk2 : kdL ({ setTask s t (fun k => { k with pc := k.pc + 1, wake := none }) with
-                   trace := s.trace ++ [.step t tk.pc s.now r tk.wake] } : St).tasks t = some (.sub k p) := by
+                   trace := s.trace ++ [.step t tk.pc s.now r raw tk.wake] } : St).tasks t = some (.sub k p) := by
       simp only [setTask_tasks, kdL_modify, implies_true]; exact hk1
     split
     · nex (h0.blockT hw0)
@@ -2331,8 +2417,8 @@ theorem NEx.resumeGen (cfg : Cfg) {s : St} {t : Nat} {tk : Task} (r : Recv)
     | (simp; done)
     | (simp only []; split <;> simp)
 
-@[simp] theorem resumeGen_running (cfg : Cfg) (s : St) (t : Nat) (tk : Task) (r : Recv) :
-    (resumeGen cfg s t tk r).running = s.running := by
+@[simp] theorem resumeGen_running (cfg : Cfg) (s : St) (t : Nat) (tk : Task) (r : Recv) (raw : Val) :
+    (resumeGen cfg s t tk r raw).running = s.running := by
   unfold resumeGen
   simp only
   repeat' split
@@ -2371,23 +2457,38 @@ theorem NE.cycle (cfg : Cfg) {s : St} (hi : Inv s) (h : NE s) : NE (cycle cfg s)
   refine ⟨by unfold Pox.Recoco.cycle; exact cycleExec_running _ _, ?_⟩
   unfold Pox.Recoco.cycle cyclePop
   simp only [h.1]
-  split
-  · -- a task is popped and executed
-    rename_i t rest _ hrd
-    have hi' : Inv { s with cycles := s.cycles + 1, running := some t, ready := rest } := by
-      have := hi
-      simp only [Inv, places, h.1, hrd, incTids, hubTids, Option.toList, List.nil_append, List.cons_append] at this ⊢
-      exact this
-    have hh : Held { s with cycles := s.cycles + 1, running := none, ready := rest } t := by
+  cases hl : lottery s.tasks s.draws s.ready with
+  | none =>
+    -- nothing to pop
+    simp only []
+    unfold Pox.Recoco.cycleExec
+    simp only [h.1]
+    nex h.2
+  | some res =>
+    obtain ⟨t, rest, ds'⟩ := res
+    simp only []
+    have hperm := lottery_perm _ _ _ hl
+    have hh : Held { s with cycles := s.cycles + 1, running := none, ready := rest, draws := ds' } t := by
       refine ⟨rfl, ?_⟩
       have := hi
-      simp only [Inv, places, h.1, hrd, incTids, hubTids, Option.toList, List.nil_append, List.cons_append] at this ⊢
-      exact this
-    have hx : NEx [t] { s with cycles := s.cycles + 1, running := none, ready := rest } := by
+      simp only [Inv, places, h.1, incTids, hubTids, Option.toList, List.nil_append] at this ⊢
+      refine this.perm ?_
+      rw [← List.cons_append]
+      exact List.Perm.append_right _ hperm
+    have hx : NEx [t] { s with cycles := s.cycles + 1, running := none, ready := rest, draws := ds' } := by
       have := h.2
-      simp only [NEx, ents, hrd] at this ⊢
-      exact ⟨this.1.mono (fun _ h' => h') (fun u hu => by simpa using hu) (fun u hu => .inl (by simpa using hu))
+      simp only [NEx, ents] at this ⊢
+      refine ⟨this.1.mono (fun _ h' => h') (fun u hu => ?_) (fun u hu => .inl ?_)
         (Nat.le_refl _) (fun _ h' => h') (fun _ _ h' => h'), this.2⟩
+      · simp only [List.nil_append]; exact hperm.mem_iff.mp (by simpa using hu)
+      · simp only [List.nil_append, List.mem_append] at hu ⊢
+        rcases hu with hu | hu
+        · have := hperm.mem_iff.mpr hu
+          simp only [List.mem_cons] at this
+          rcases this with rfl | h1
+          · exact .inl (List.mem_singleton.mpr rfl)
+          · exact .inr (.inl h1)
+        · exact .inr (.inr hu)
     unfold Pox.Recoco.cycleExec
     simp only
     split
@@ -2400,13 +2501,13 @@ theorem NE.cycle (cfg : Cfg) {s : St} (hi : Inv s) (h : NE s) : NE (cycle cfg s)
       · rename_i s1 he; rw [he] at hp; exact hp
       · rename_i e s1 he; rw [he] at hp hpo; exact NEx.kill hp hpo (by simp)
       · rename_i r s1 he; rw [he] at hp hpo
-        obtain ⟨hf, hto⟩ := hp
+        have hf : PreFr _ s1 t tk := hp
         obtain ⟨tk1, htk1, hw1, _⟩ := hf.self
         split
         · rename_i hn; rw [htk1] at hn; cases hn
         · rename_i tk1' htk1'
           rw [htk1] at htk1'; cases htk1'
-          refine NEx.resumeGen cfg r (hx.resume hh hf _ (fun _ => rfl)) ?_ hpo htk1
+          refine NEx.resumeGen cfg r _ (hx.resume hh hf _ (fun _ => rfl)) ?_ hpo htk1
           -- the recorded event is not early
           rw [hw1, hf.now]
           cases hwk : tk.wake with
@@ -2416,13 +2517,7 @@ theorem NE.cycle (cfg : Cfg) {s : St} (hi : Inv s) (h : NE s) : NE (cycle cfg s)
             intro hc
             refine hx.1.ready t (List.mem_append_left _ List.mem_cons_self) w fds (by simp [wkL, htk', hwk]) (hc.imp id ?_)
             intro hr
-            exact ⟨tk, htk', hto hr⟩
-  · -- nothing to pop
-    rename_i hnp
-    unfold Pox.Recoco.cycleExec
-    simp only [h.1]
-    nex h.2
-
+            exact ⟨tk, htk', hr⟩
 
 theorem NE.idleStep (cfg : Cfg) {s : St} (hi : Inv s) (h : NE s) : NE (idleStep cfg s) :=
   ⟨(HubFr.idleStep cfg s).running.trans h.1, h.2.idleStep cfg hi⟩
@@ -2442,11 +2537,14 @@ theorem NE.run (cfg : Cfg) : ∀ (n : Nat) {s : St}, Inv s → NE s → NE (run 
   | 0, _, _, h => h
   | n + 1, _, hi, h => NE.run cfg n (hi.iter cfg) (h.iter cfg hi)
 
-theorem NE.init (t0 : Nat) (tasks : List Nat) (timers : List TimerCfg) (ss rs : List (Option Nat)) :
-    NE (initSt t0 tasks timers ss rs) := by
-  have hwk : ∀ t, wkL (initSt t0 tasks timers ss rs).tasks t = none := by
+theorem NE.init (t0 : Nat) (tasks : List Nat) (timers : List TimerCfg) (ss rs : List (Option Nat)) (ps ds : List Nat) :
+    NE (initSt t0 tasks timers ss rs ps ds) := by
+  have hwk : ∀ t, wkL (initSt t0 tasks timers ss rs ps ds).tasks t = none := by
     intro t
-    simp only [wkL, initSt, List.getElem?_append, List.length_map, List.getElem?_map]
+    have e : wkL (initSt t0 tasks timers ss rs ps ds).tasks t = (((initSt t0 tasks timers ss rs ps ds).tasks.map (·.wake))[t]?).join := by
+      simp only [wkL, List.getElem?_map]; cases (initSt t0 tasks timers ss rs ps ds).tasks[t]? <;> rfl
+    rw [e, initSt_view (·.wake) (fun _ _ => rfl)]
+    simp only [List.getElem?_append, List.length_map, List.getElem?_map]
     split
     · cases tasks[t]? <;> simp
     · cases (List.range timers.length)[t - tasks.length]? <;> simp
@@ -2456,24 +2554,72 @@ theorem NE.init (t0 : Nat) (tasks : List Nat) (timers : List TimerCfg) (ss rs : 
   · intro t _ _; exact hwk t
   · intro ev hev; simp [initSt] at hev
 
-/-! ## Part 4: one-cycle theorems (isolation, sub-task return, delivery) -/
+/-! ## Part 4: one-cycle theorems (isolation, sub-task return, delivery)
 
-/-- a top-level task whose step raises: it is descheduled, nothing else changes -/
-theorem isolation_step (cfg : Cfg) (s : St) (t : Nat) (rest : List Nat) (tk : Task) (k : Nat) (prog : List Y) (e : Exc)
-    (hrun : s.running = none) (hrd : s.ready = t :: rest) (htk : s.tasks[t]? = some tk)
-    (hkind : tk.kind = .top k) (hprog : cfg.progs[k]? = some prog) (hrf : tk.rf = none) (hre : tk.re = none)
-    (hraise : genStep s.timers.length prog tk.pc (.val tk.rv) = .raise e) :
-    let s' := cycle cfg s
-    s'.ready = rest ∧ s'.running = none ∧ s'.incoming = s.incoming ∧ s'.hub = s.hub ∧ s'.now = s.now ∧
-    s'.hasQuit = s.hasQuit ∧ s'.timers = s.timers ∧
-    (∀ u, u ≠ t → s'.tasks[u]? = s.tasks[u]?) ∧ stL s'.tasks t = some .dead ∧
-    s'.trace = s.trace ++ [.step t tk.pc s.now (.val tk.rv) tk.wake] := by
-  simp only [cycle, cyclePop, hrun, hrd, cycleExec, htk, execPre, hrf, hre]
-  simp [List.getElem?_modify, htk, resumeGen, hkind, hprog, hraise, topOut, setStatus, stL]
-  intro u hu
-  have : ¬ t = u := fun e => hu e.symm
-  cases s.tasks[u]? <;> simp [this]
+`cycle` = lottery (`cyclePop`) ; `execPre` (rf / re / rv delivery) ; `resumeGen`.  The theorems below are about the last stage, for
+an arbitrary state and an arbitrary value `r` handed to the generator; `cycle_pop` / `cycleExec_resume` / `cycleExec_raised` /
+`execPre_same` connect them to a whole cycle, whatever way the task was woken (plain value, pending exception, or through the
+return function of `Recv` / `Send`). -/
 
+/-- the state `cycleExec` starts from when the lottery picked `t` -/
+def popped (s : St) (t : Nat) (rest ds' : List Nat) : St :=
+  { s with cycles := s.cycles + 1, running := some t, ready := rest, draws := ds' }
+
+theorem cycle_pop (cfg : Cfg) (s : St) (t : Nat) (rest ds' : List Nat) (hrun : s.running = none)
+    (hpop : lottery s.tasks s.draws s.ready = some (t, rest, ds')) : cycle cfg s = cycleExec cfg (popped s t rest ds') := by
+  simp [cycle, cyclePop, hrun, hpop, popped]
+
+theorem cycleExec_resume (cfg : Cfg) (s s1 : St) (t : Nat) (tk tk1 : Task) (r : Recv) (hrun : s.running = some t)
+    (htk : s.tasks[t]? = some tk) (hpre : execPre cfg { s with running := none } t tk = (.resume r, s1))
+    (htk1 : s1.tasks[t]? = some tk1) : cycleExec cfg s = resumeGen cfg s1 t tk1 r tk.rv := by
+  have htk' : ({ s with running := none } : St).tasks[t]? = some tk := htk
+  simp only [cycleExec, hrun, htk', hpre, htk1]
+
+theorem cycleExec_raised (cfg : Cfg) (s s1 : St) (t : Nat) (tk : Task) (e : Exc) (hrun : s.running = some t)
+    (htk : s.tasks[t]? = some tk) (hpre : execPre cfg { s with running := none } t tk = (.raised e, s1)) :
+    cycleExec cfg s = setStatus s1 t .dead := by
+  have htk' : ({ s with running := none } : St).tasks[t]? = some tk := htk
+  simp only [cycleExec, hrun, htk', hpre]
+
+/-- what `execPre` may touch when it does not answer `ABORT`: the scripts and, of task `t` only, `rv` / `re` / `rf` -/
+structure PreSame (s s1 : St) (t : Nat) (tk : Task) : Prop where
+  ready : s1.ready = s.ready
+  incoming : s1.incoming = s.incoming
+  hub : s1.hub = s.hub
+  now : s1.now = s.now
+  hasQuit : s1.hasQuit = s.hasQuit
+  crashed : s1.crashed = s.crashed
+  running : s1.running = s.running
+  timers : s1.timers = s.timers
+  trace : s1.trace = s.trace
+  others : ∀ u, u ≠ t → s1.tasks[u]? = s.tasks[u]?
+  self : (s1.tasks[t]?).map (fun k => (k.kind, k.pc, k.st, k.wake, k.prio)) = some (tk.kind, tk.pc, tk.st, tk.wake, tk.prio)
+
+theorem execPre_same (cfg : Cfg) (s : St) (t : Nat) (tk : Task) (ht : s.tasks[t]? = some tk) :
+    ∀ x s1, execPre cfg s t tk = (x, s1) → x ≠ .abort → PreSame s s1 t tk := by
+  intro x s1 h hx
+  unfold execPre at h
+  simp only [] at h
+  repeat' split at h
+  all_goals
+    simp only [Prod.mk.injEq] at h
+    obtain ⟨rfl, rfl⟩ := h
+  all_goals first
+    | exact absurd rfl hx
+    | exact ⟨rfl, rfl, rfl, rfl, rfl, rfl, rfl, rfl, rfl, fun _ _ => rfl, by simp [ht]⟩
+    | exact ⟨rfl, rfl, rfl, rfl, rfl, rfl, rfl, rfl, rfl, fun u hu => getElem?_modify_ne' hu, by simp [List.getElem?_modify, ht]⟩
+
+/-- without a return function the generator is sent the pending exception, else the pending value -/
+def pendingRecv (tk : Task) : Recv :=
+  match tk.re with
+  | some e => .exc e
+  | none => .val tk.rv
+
+theorem execPre_plain (cfg : Cfg) (s : St) (t : Nat) (tk : Task) (hrf : tk.rf = none) :
+    (execPre cfg s t tk).1 = .resume (pendingRecv tk) := by
+  unfold execPre pendingRecv
+  simp only [hrf]
+  cases tk.re <;> rfl
 
 theorem genStep_ne_yield_raise (n : Nat) (prog : List Y) (pc : Nat) (r : Recv) (m : Nat) :
     genStep n prog pc r ≠ .yield (.raise m) := by
@@ -2504,95 +2650,6 @@ def deliver (fx : Bool) (o : Out) (pc : Nat) (ptk : Task) : Task :=
 def Out.final : Out → Bool
   | .yield y => !y.isBlocking
   | _ => true
-
-theorem again_return_step (cfg : Cfg) (s : St) (c p k : Nat) (rest : List Nat) (tk ptk : Task) (prog : List Y)
-    (hrun : s.running = none) (hrd : s.ready = c :: rest) (htk : s.tasks[c]? = some tk)
-    (hkind : tk.kind = .sub k p) (hprog : cfg.progs[k]? = some prog) (hrf : tk.rf = none) (hre : tk.re = none)
-    (hp : s.tasks[p]? = some ptk) (hpc : p ≠ c) (hnr : p ∉ rest)
-    (hfin : (genStep s.timers.length prog tk.pc (.val tk.rv)).final = true) :
-    let s' := cycle cfg s
-    let o := genStep s.timers.length prog tk.pc (.val tk.rv)
-    s'.ready = p :: rest ∧ s'.running = none ∧ s'.incoming = s.incoming ∧ s'.hub = s.hub ∧ s'.now = s.now ∧
-    s'.tasks[p]? = some (deliver cfg.fixEmptySub o tk.pc (if tk.pc = 0 then { ptk with rv := .none } else ptk)) ∧
-    (∀ u, u ≠ c → u ≠ p → s'.tasks[u]? = s.tasks[u]?) ∧ stL s'.tasks c = some .done := by
-  have hcp : ¬ c = p := fun e => hpc e.symm
-  obtain ⟨kind, pc, rv, re, rf, st, wake⟩ := tk
-  simp only at hkind hrf hre hfin ⊢
-  subst hkind hrf hre
-  have fin : ∀ (pc : Nat) (htk : s.tasks[c]? = some { kind := Kind.sub k p, pc := pc, rv := rv, st := st, wake := wake })
-      (o : Out), genStep s.timers.length prog pc (Recv.val rv) = o → o.final = true →
-      (let s' := cycle cfg s
-       s'.ready = p :: rest ∧ s'.running = none ∧ s'.incoming = s.incoming ∧ s'.hub = s.hub ∧ s'.now = s.now ∧
-       s'.tasks[p]? = some (deliver cfg.fixEmptySub o pc (if pc = 0 then { ptk with rv := .none } else ptk)) ∧
-       (∀ u, u ≠ c → u ≠ p → s'.tasks[u]? = s.tasks[u]?) ∧ stL s'.tasks c = some .done) := by
-    intro pc htk o hgo hfin
-    have tail : ∀ (u : Nat) (f1 f2 f3 f4 f5 : Task → Task), u ≠ c → u ≠ p →
-        (((((s.tasks.modify c f1).modify c f2).modify p f3).modify p f4).modify c f5)[u]? = s.tasks[u]? := by
-      intro u f1 f2 f3 f4 f5 h1 h2
-      rw [getElem?_modify_ne' h1, getElem?_modify_ne' h2, getElem?_modify_ne' h2, getElem?_modify_ne' h1, getElem?_modify_ne' h1]
-    have tail' : ∀ (u : Nat) (f1 f2 f4 f5 : Task → Task), u ≠ c → u ≠ p →
-        ((((s.tasks.modify c f1).modify c f2).modify p f4).modify c f5)[u]? = s.tasks[u]? := by
-      intro u f1 f2 f4 f5 h1 h2
-      rw [getElem?_modify_ne' h1, getElem?_modify_ne' h2, getElem?_modify_ne' h1, getElem?_modify_ne' h1]
-    have tail'' : ∀ (u : Nat) (f1 f2 f5 : Task → Task), u ≠ c → u ≠ p →
-        (((s.tasks.modify c f1).modify c f2).modify c f5)[u]? = s.tasks[u]? := by
-      intro u f1 f2 f5 h1 h2
-      rw [getElem?_modify_ne' h1, getElem?_modify_ne' h1, getElem?_modify_ne' h1]
-    simp only [cycle, cyclePop, hrun, hrd, cycleExec, htk, execPre]
-    simp only [setTask_tasks, List.getElem?_modify, htk, if_true, Option.map_eq_map, Option.map_some, resumeGen, hprog,
-      setTask_timers, hgo]
-    rcases Nat.eq_zero_or_pos pc with rfl | hpos
-    · cases o with
-      | raise e =>
-        simp [hgo, subOut, finishSub, fastSchedule, setStatus, hnr, deliver, stL, List.getElem?_modify, hp, hpc, hcp, htk]
-        intro u h1 h2
-        have e1 : ¬ c = u := fun e => h1 e.symm
-        have e2 : ¬ p = u := fun e => h2 e.symm
-        cases s.tasks[u]? <;> simp [e1, e2]
-      | stop =>
-        cases hfx : cfg.fixEmptySub
-        all_goals
-          simp [hgo, hfx, subOut, finishSub, fastSchedule, setStatus, hnr, deliver, stL, List.getElem?_modify, hp, hpc, hcp, htk]
-          intro u h1 h2
-          have e1 : ¬ c = u := fun e => h1 e.symm
-          have e2 : ¬ p = u := fun e => h2 e.symm
-          cases s.tasks[u]? <;> simp [e1, e2]
-      | yield y =>
-        cases y <;> simp [Out.final, Y.isBlocking] at hfin
-        case raise m => exact absurd hgo (genStep_ne_yield_raise _ _ _ _ _)
-        all_goals
-          simp [hgo, subOut, Y.isBlocking, finishSub, fastSchedule, setStatus, hnr, deliver, stL, List.getElem?_modify, hp, hpc, hcp, htk,
-            cancelTimer]
-          intro u h1 h2
-          have e1 : ¬ c = u := fun e => h1 e.symm
-          have e2 : ¬ p = u := fun e => h2 e.symm
-          cases s.tasks[u]? <;> simp [e1, e2]
-    · have hne : pc ≠ 0 := by omega
-      cases o with
-      | raise e =>
-        simp [hgo, hne, subOut, finishSub, fastSchedule, setStatus, hnr, deliver, stL, List.getElem?_modify, hp, hpc, hcp, htk]
-        intro u h1 h2
-        have e1 : ¬ c = u := fun e => h1 e.symm
-        have e2 : ¬ p = u := fun e => h2 e.symm
-        cases s.tasks[u]? <;> simp [e1, e2]
-      | stop =>
-        simp [hgo, hne, subOut, finishSub, fastSchedule, setStatus, hnr, deliver, stL, List.getElem?_modify, hp, hpc, hcp, htk]
-        intro u h1 h2
-        have e1 : ¬ c = u := fun e => h1 e.symm
-        have e2 : ¬ p = u := fun e => h2 e.symm
-        cases s.tasks[u]? <;> simp [e1, e2]
-      | yield y =>
-        cases y <;> simp [Out.final, Y.isBlocking] at hfin
-        case raise m => exact absurd hgo (genStep_ne_yield_raise _ _ _ _ _)
-        all_goals
-          simp [hgo, hne, subOut, Y.isBlocking, finishSub, fastSchedule, setStatus, hnr, deliver, stL, List.getElem?_modify, hp, hpc, hcp, htk,
-            cancelTimer]
-          intro u h1 h2
-          have e1 : ¬ c = u := fun e => h1 e.symm
-          have e2 : ¬ p = u := fun e => h2 e.symm
-          cases s.tasks[u]? <;> simp [e1, e2]
-  exact fin pc htk _ rfl hfin
-
 
 @[simp] theorem fastSchedule_trace (s : St) (t : Nat) (f : Bool) : (fastSchedule s t f).trace = s.trace := by
   unfold fastSchedule; split <;> rfl
@@ -2630,36 +2687,105 @@ def pendingRecv (tk : Task) : Recv :=
   | some e => .exc e
   | none => .val tk.rv
 
-/-- one cycle resumes exactly the task at the head of the ready deque, once, with exactly what is pending for it -/
-theorem resume_receives (cfg : Cfg) (s : St) (t : Nat) (rest : List Nat) (tk : Task) (prog : List Y)
-    (hrun : s.running = none) (hrd : s.ready = t :: rest) (htk : s.tasks[t]? = some tk) (hrf : tk.rf = none)
+
+/-- **isolation, generator stage.**  The generator of a top-level task raises when resumed with `r` (its own `raise`, or an
+exception thrown in that it does not catch): the task becomes dead and stays out of every queue; nothing else changes. -/
+theorem resumeGen_raise (cfg : Cfg) (s : St) (t : Nat) (tk : Task) (k : Nat) (prog : List Y) (e : Exc) (r : Recv) (raw : Val)
+    (htk : s.tasks[t]? = some tk) (hkind : tk.kind = .top k) (hprog : cfg.progs[k]? = some prog)
+    (hraise : genStep s.timers.length prog tk.pc r = .raise e) :
+    let s' := resumeGen cfg s t tk r raw
+    s'.ready = s.ready ∧ s'.running = s.running ∧ s'.incoming = s.incoming ∧ s'.hub = s.hub ∧ s'.now = s.now ∧
+    s'.hasQuit = s.hasQuit ∧ s'.crashed = s.crashed ∧ s'.timers = s.timers ∧
+    (∀ u, u ≠ t → s'.tasks[u]? = s.tasks[u]?) ∧ stL s'.tasks t = some .dead ∧
+    s'.trace = s.trace ++ [.step t tk.pc s.now r raw tk.wake] := by
+  obtain ⟨kind, pc, rv, re, rf, st, wake, prio⟩ := tk
+  simp only at hkind hraise ⊢
+  subst hkind
+  simp [resumeGen, hprog, hraise, topOut, setStatus, stL, List.getElem?_modify, htk]
+  intro u hu
+  have : ¬ t = u := fun e => hu e.symm
+  cases s.tasks[u]? <;> simp [this]
+
+/-- **again_return, generator stage.**  The generator of a sub-task finishes when resumed with `r` (raises, runs out, or yields a
+plain value): exactly its caller gets the outcome, the caller goes to the front of the ready deque, the sub-task is done. -/
+theorem resumeGen_final (cfg : Cfg) (s : St) (c p k : Nat) (tk ptk : Task) (prog : List Y) (r : Recv) (raw : Val)
+    (htk : s.tasks[c]? = some tk) (hkind : tk.kind = .sub k p) (hprog : cfg.progs[k]? = some prog)
+    (hp : s.tasks[p]? = some ptk) (hpc : p ≠ c) (hnr : p ∉ s.ready)
+    (hfin : (genStep s.timers.length prog tk.pc r).final = true) :
+    let s' := resumeGen cfg s c tk r raw
+    let o := genStep s.timers.length prog tk.pc r
+    s'.ready = p :: s.ready ∧ s'.running = s.running ∧ s'.incoming = s.incoming ∧ s'.hub = s.hub ∧ s'.now = s.now ∧
+    s'.tasks[p]? = some (deliver cfg.fixEmptySub o tk.pc (if tk.pc = 0 then { ptk with rv := .none } else ptk)) ∧
+    (∀ u, u ≠ c → u ≠ p → s'.tasks[u]? = s.tasks[u]?) ∧ stL s'.tasks c = some .done ∧
+    s'.trace = s.trace ++ [.step c tk.pc s.now r raw tk.wake] := by
+  have hcp : ¬ c = p := fun e => hpc e.symm
+  obtain ⟨kind, pc, rv, re, rf, st, wake, prio⟩ := tk
+  simp only at hkind hfin ⊢
+  subst hkind
+  generalize hgo : genStep s.timers.length prog pc r = o at hfin
+  have fin2 : ∀ (u : Nat), u ≠ c → u ≠ p → ¬ c = u ∧ ¬ p = u := fun u h1 h2 => ⟨fun e => h1 e.symm, fun e => h2 e.symm⟩
+  simp only [resumeGen, hprog, setTask_timers, hgo]
+  rcases Nat.eq_zero_or_pos pc with rfl | hpos
+  · cases o with
+    | raise e =>
+      simp [subOut, finishSub, fastSchedule, setStatus, hnr, deliver, stL, List.getElem?_modify, hp, hpc, hcp, htk]
+      intro u h1 h2
+      obtain ⟨e1, e2⟩ := fin2 u h1 h2
+      cases s.tasks[u]? <;> simp [e1, e2]
+    | stop =>
+      cases hfx : cfg.fixEmptySub
+      all_goals
+        simp [hfx, subOut, finishSub, fastSchedule, setStatus, hnr, deliver, stL, List.getElem?_modify, hp, hpc, hcp, htk]
+        intro u h1 h2
+        obtain ⟨e1, e2⟩ := fin2 u h1 h2
+        cases s.tasks[u]? <;> simp [e1, e2]
+    | yield y =>
+      cases y <;> simp [Out.final, Y.isBlocking] at hfin
+      case raise m => exact absurd hgo (genStep_ne_yield_raise _ _ _ _ _)
+      all_goals
+        simp [subOut, Y.isBlocking, finishSub, fastSchedule, setStatus, hnr, deliver, stL, List.getElem?_modify, hp, hpc, hcp, htk,
+          cancelTimer]
+        intro u h1 h2
+        obtain ⟨e1, e2⟩ := fin2 u h1 h2
+        cases s.tasks[u]? <;> simp [e1, e2]
+  · have hne : pc ≠ 0 := by omega
+    cases o with
+    | raise e =>
+      simp [hne, subOut, finishSub, fastSchedule, setStatus, hnr, deliver, stL, List.getElem?_modify, hp, hpc, hcp, htk]
+      intro u h1 h2
+      obtain ⟨e1, e2⟩ := fin2 u h1 h2
+      cases s.tasks[u]? <;> simp [e1, e2]
+    | stop =>
+      simp [hne, subOut, finishSub, fastSchedule, setStatus, hnr, deliver, stL, List.getElem?_modify, hp, hpc, hcp, htk]
+      intro u h1 h2
+      obtain ⟨e1, e2⟩ := fin2 u h1 h2
+      cases s.tasks[u]? <;> simp [e1, e2]
+    | yield y =>
+      cases y <;> simp [Out.final, Y.isBlocking] at hfin
+      case raise m => exact absurd hgo (genStep_ne_yield_raise _ _ _ _ _)
+      all_goals
+        simp [hne, subOut, Y.isBlocking, finishSub, fastSchedule, setStatus, hnr, deliver, stL, List.getElem?_modify, hp, hpc, hcp, htk,
+          cancelTimer]
+        intro u h1 h2
+        obtain ⟨e1, e2⟩ := fin2 u h1 h2
+        cases s.tasks[u]? <;> simp [e1, e2]
+
+/-- **delivery, generator stage.**  Resuming the generator of a task that runs a program appends exactly one step event, which
+records the value handed over, the raw `rv` it came from and the wake time the task was waiting for. -/
+theorem resumeGen_event (cfg : Cfg) (s : St) (t : Nat) (tk : Task) (prog : List Y) (r : Recv) (raw : Val)
     (hprog : progOf cfg tk.kind = some prog) :
-    (cycle cfg s).trace = s.trace ++ [.step t tk.pc s.now (pendingRecv tk) tk.wake] := by
-  obtain ⟨kind, pc, rv, re, rf, st, wake⟩ := tk
-  simp only at hrf hprog ⊢
-  subst hrf
-  simp only [cycle, cyclePop, hrun, hrd, cycleExec, htk, execPre, pendingRecv]
-  cases re with
-  | none =>
-    cases kind with
-    | top k =>
-      simp only [progOf] at hprog
-      simp [List.getElem?_modify, htk, resumeGen, hprog]
-    | sub k p =>
-      simp only [progOf] at hprog
-      simp [List.getElem?_modify, htk, resumeGen, hprog]
-      split <;> rfl
-    | timer j => simp [progOf] at hprog
-  | some e =>
-    cases kind with
-    | top k =>
-      simp only [progOf] at hprog
-      simp [List.getElem?_modify, htk, resumeGen, hprog]
-    | sub k p =>
-      simp only [progOf] at hprog
-      simp [List.getElem?_modify, htk, resumeGen, hprog]
-      split <;> rfl
-    | timer j => simp [progOf] at hprog
+    (resumeGen cfg s t tk r raw).trace = s.trace ++ [.step t tk.pc s.now r raw tk.wake] := by
+  obtain ⟨kind, pc, rv, re, rf, st, wake, prio⟩ := tk
+  simp only at hprog ⊢
+  cases kind with
+  | top k =>
+    simp only [progOf] at hprog
+    simp [resumeGen, hprog]
+  | sub k p =>
+    simp only [progOf] at hprog
+    simp [resumeGen, hprog]
+    split <;> rfl
+  | timer j => simp [progOf] at hprog
 
 /-! ## Part 5: a cycle changes `ctl` (kind, pc, status) of the task it runs only; finished tasks never run again -/
 
@@ -2788,9 +2914,9 @@ theorem CycFr.timerStep (t : Nat) (s : St) (j pc : Nat) : CycFr t s (timerStep s
           · exact CycFr.of_tasks rfl
           · exact CycFr.of_after (CycFr.doYield t _ _) (CycFr.of_tasks rfl)
 
-theorem CycFr.resumeGen (cfg : Cfg) (t : Nat) (s : St) (tk : Task) (r : Recv) : CycFr t s (resumeGen cfg s t tk r) := by
+theorem CycFr.resumeGen (cfg : Cfg) (t : Nat) (s : St) (tk : Task) (r : Recv) (raw : Val) : CycFr t s (resumeGen cfg s t tk r raw) := by
   have h0 : CycFr t s { setTask s t (fun k => { k with pc := k.pc + 1, wake := none }) with
-                   trace := s.trace ++ [.step t tk.pc s.now r tk.wake] } :=
+                   trace := s.trace ++ [.step t tk.pc s.now r raw tk.wake] } :=
     CycFr.setTask_self.trans (CycFr.of_tasks rfl)
   unfold Pox.Recoco.resumeGen
   simp only
@@ -2828,7 +2954,7 @@ theorem CycFr.cycleExec (cfg : Cfg) (s : St) (t : Nat) (hr : s.running = some t)
     · rename_i r s1 he; rw [he] at hp
       split
       · exact hp.trans (CycFr.of_tasks rfl)
-      · exact hp.trans (CycFr.resumeGen cfg t s1 _ r)
+      · exact hp.trans (CycFr.resumeGen cfg t s1 _ r _)
 
 /-- one cycle leaves kind, step counter and status of every task other than the one it runs untouched -/
 theorem cycle_ctl_other (cfg : Cfg) (s : St) (hrun : s.running = none) (u : Nat) (hu : s.ready.head? ≠ some u)
@@ -3016,10 +3142,10 @@ theorem RA.execPre (cfg : Cfg) (s : St) (t : Nat) (tk : Task) : RA s (execPre cf
     | (refine RA.of_after (RA.registerSelect _ t _ _ _ _) (RA.of_after (RA.setTask ?_) (RA.same rfl rfl)); intro _; rfl)
 
 
-theorem RA.resumeGen (cfg : Cfg) (hna : NoAgain cfg) (s : St) (t : Nat) (tk : Task) (r : Recv)
-    (hk : ∀ a p, tk.kind ≠ .sub a p) : RA s (resumeGen cfg s t tk r) := by
+theorem RA.resumeGen (cfg : Cfg) (hna : NoAgain cfg) (s : St) (t : Nat) (tk : Task) (r : Recv) (raw : Val)
+    (hk : ∀ a p, tk.kind ≠ .sub a p) : RA s (resumeGen cfg s t tk r raw) := by
   have h0 : RA s { Pox.Recoco.setTask s t (fun k => { k with pc := k.pc + 1, wake := none }) with
-                   trace := s.trace ++ [.step t tk.pc s.now r tk.wake] } := by
+                   trace := s.trace ++ [.step t tk.pc s.now r raw tk.wake] } := by
     refine RA.of_after (b := Pox.Recoco.setTask s t _) (RA.same rfl rfl) (RA.setTask ?_); intro _; rfl
   unfold Pox.Recoco.resumeGen
   simp only
@@ -3055,7 +3181,7 @@ theorem RA.cycleExec (cfg : Cfg) (hna : NoAgain cfg) (s : St) (hns : NoSub s) : 
         split
         · exact RA.of_after (b := s1) (RA.same rfl rfl) hp'
         · rename_i tk1 htk1
-          refine RA.of_after (RA.resumeGen cfg hna s1 t tk1 r ?_) hp
+          refine RA.of_after (RA.resumeGen cfg hna s1 t tk1 r _ ?_) hp
           intro a p hk
           have hm := kind_of_get htk1
           rw [hp.kinds] at hm
@@ -3318,9 +3444,9 @@ theorem TFr.timerStep (s : St) (t j pc : Nat) : TFr s (timerStep s t j pc) := by
             exact this
 
 
-theorem TFr.resumeGen (cfg : Cfg) (s : St) (t : Nat) (tk : Task) (r : Recv) : TFr s (resumeGen cfg s t tk r) := by
+theorem TFr.resumeGen (cfg : Cfg) (s : St) (t : Nat) (tk : Task) (r : Recv) (raw : Val) : TFr s (resumeGen cfg s t tk r raw) := by
   have h0 : TFr s { Pox.Recoco.setTask s t (fun k => { k with pc := k.pc + 1, wake := none }) with
-                   trace := s.trace ++ [.step t tk.pc s.now r tk.wake] } := TFr.same rfl
+                   trace := s.trace ++ [.step t tk.pc s.now r raw tk.wake] } := TFr.same rfl
   unfold Pox.Recoco.resumeGen
   simp only
   split
@@ -3360,7 +3486,7 @@ theorem TFr.cycleExec (cfg : Cfg) (s : St) : TFr s (Pox.Recoco.cycleExec cfg s) 
         have hp' : TFr s s1 := hp
         split
         · exact TFr.of_after (b := s1) (TFr.same rfl) hp'
-        · exact TFr.of_after (TFr.resumeGen cfg s1 t _ r) hp'
+        · exact TFr.of_after (TFr.resumeGen cfg s1 t _ r _) hp'
 
 theorem TFr.cycle (cfg : Cfg) (s : St) : TFr s (Pox.Recoco.cycle cfg s) := by
   unfold Pox.Recoco.cycle
@@ -3390,7 +3516,7 @@ theorem TOK.init (c : TimerCfg) (next : Nat) : TOK { cfg := c, next := next } :=
 
 def fireIdx (t : Nat) : Ev → Option Nat
   | .fire t' n _ => if t' = t then some n else none
-  | .step _ _ _ _ _ => none
+  | .step _ _ _ _ _ _ => none
 
 def isSub : Kind → Prop
   | .sub _ _ => True
@@ -3604,10 +3730,10 @@ theorem FI.timerStep {s : St} (h : FI s) {t j : Nat} (ht : kdL s.tasks t = some 
             refine map_fired_modify _ _ _ ?_; intro _; rfl
           · exact hf.nf (NF.doYield _ t _)
 
-theorem FI.resumeGen (cfg : Cfg) {s : St} (h : FI s) {t : Nat} {tk : Task} (htk : s.tasks[t]? = some tk) (r : Recv) :
-    FI (Pox.Recoco.resumeGen cfg s t tk r) := by
+theorem FI.resumeGen (cfg : Cfg) {s : St} (h : FI s) {t : Nat} {tk : Task} (htk : s.tasks[t]? = some tk) (r : Recv) (raw : Val) :
+    FI (Pox.Recoco.resumeGen cfg s t tk r raw) := by
   have n0 : NF s { Pox.Recoco.setTask s t (fun k => { k with pc := k.pc + 1, wake := none }) with
-                   trace := s.trace ++ [.step t tk.pc s.now r tk.wake] } := by
+                   trace := s.trace ++ [.step t tk.pc s.now r raw tk.wake] } := by
     refine ⟨⟨[], ?_, by simp⟩, rfl, fun u => by simp [List.filterMap_append, fireIdx]⟩
     simp only [setTask_tasks, List.append_nil]
     refine map_kind_modify _ _ _ ?_; intro _; rfl
@@ -3646,7 +3772,7 @@ theorem FI.cycleExec (cfg : Cfg) {s : St} (h : FI s) : FI (Pox.Recoco.cycleExec 
         have hp' : FI s1 := hp
         split
         · exact hp'.nf (NF.same rfl rfl rfl)
-        · rename_i tk1 htk1; exact hp'.resumeGen cfg htk1 r
+        · rename_i tk1 htk1; exact hp'.resumeGen cfg htk1 r _
 
 theorem FI.iter (cfg : Cfg) {s : St} (h : FI s) : FI (Pox.Recoco.iter cfg s) := by
   have hub : NF s (idleStep cfg s) := by
@@ -3671,9 +3797,12 @@ theorem FI.run (cfg : Cfg) : ∀ (n : Nat) {s : St}, FI s → FI (Pox.Recoco.run
   | n + 1, _, h => FI.run cfg n (h.iter cfg)
 
 
-theorem initSt_kind (t0 : Nat) (tasks : List Nat) (timers : List TimerCfg) (ss rs : List (Option Nat)) (t j : Nat) :
-    kdL (initSt t0 tasks timers ss rs).tasks t = some (.timer j) ↔ (t = tasks.length + j ∧ j < timers.length) := by
-  simp only [kdL, initSt, List.getElem?_append, List.length_map, List.getElem?_map]
+theorem initSt_kind (t0 : Nat) (tasks : List Nat) (timers : List TimerCfg) (ss rs : List (Option Nat)) (ps ds : List Nat) (t j : Nat) :
+    kdL (initSt t0 tasks timers ss rs ps ds).tasks t = some (.timer j) ↔ (t = tasks.length + j ∧ j < timers.length) := by
+  have e : kdL (initSt t0 tasks timers ss rs ps ds).tasks t = ((initSt t0 tasks timers ss rs ps ds).tasks.map (·.kind))[t]? := by
+    simp [kdL]
+  rw [e, initSt_view (·.kind) (fun _ _ => rfl)]
+  simp only [List.getElem?_append, List.length_map, List.getElem?_map]
   split
   · rename_i hlt
     cases h : tasks[t]? <;> simp <;> omega
@@ -3692,8 +3821,8 @@ theorem initSt_kind (t0 : Nat) (tasks : List Nat) (timers : List TimerCfg) (ss r
       simp
       omega
 
-theorem FI.init (t0 : Nat) (tasks : List Nat) (timers : List TimerCfg) (ss rs : List (Option Nat)) :
-    FI (initSt t0 tasks timers ss rs) := by
+theorem FI.init (t0 : Nat) (tasks : List Nat) (timers : List TimerCfg) (ss rs : List (Option Nat)) (ps ds : List Nat) :
+    FI (initSt t0 tasks timers ss rs ps ds) := by
   refine ⟨?_, ?_, ?_⟩
   · intro t t' j h1 h2
     rw [initSt_kind] at h1 h2; omega
@@ -3706,8 +3835,8 @@ theorem FI.init (t0 : Nat) (tasks : List Nat) (timers : List TimerCfg) (ss rs : 
     simp [initSt, this]
   · intro t _; simp [initSt]
 
-theorem TOK.initSt (t0 : Nat) (tasks : List Nat) (timers : List TimerCfg) (ss rs : List (Option Nat)) (j : Nat) (tm : TimerSt)
-    (h : (Pox.Recoco.initSt t0 tasks timers ss rs).timers[j]? = some tm) :
+theorem TOK.initSt (t0 : Nat) (tasks : List Nat) (timers : List TimerCfg) (ss rs : List (Option Nat)) (ps ds : List Nat) (j : Nat) (tm : TimerSt)
+    (h : (Pox.Recoco.initSt t0 tasks timers ss rs ps ds).timers[j]? = some tm) :
     TOK tm ∧ tm.cancelled = false ∧ (∃ c, timers[j]? = some c ∧ tm.cfg = c) := by
   simp only [Pox.Recoco.initSt, List.getElem?_map] at h
   cases hc : timers[j]? with
@@ -3743,9 +3872,9 @@ theorem KP.timerStep (s : St) (t j pc : Nat) : KP s (Pox.Recoco.timerStep s t j 
           · exact KP.same rfl
           · exact KP.of_after (KP.of_nf (NF.doYield _ t _)) (KP.same rfl)
 
-theorem KP.resumeGen (cfg : Cfg) (s : St) (t : Nat) (tk : Task) (r : Recv) : KP s (Pox.Recoco.resumeGen cfg s t tk r) := by
+theorem KP.resumeGen (cfg : Cfg) (s : St) (t : Nat) (tk : Task) (r : Recv) (raw : Val) : KP s (Pox.Recoco.resumeGen cfg s t tk r raw) := by
   have h0 : KP s { Pox.Recoco.setTask s t (fun k => { k with pc := k.pc + 1, wake := none }) with
-                   trace := s.trace ++ [.step t tk.pc s.now r tk.wake] } := by
+                   trace := s.trace ++ [.step t tk.pc s.now r raw tk.wake] } := by
     refine ⟨[], ?_⟩
     simp only [setTask_tasks, List.append_nil]
     refine map_kind_modify _ _ _ ?_; intro _; rfl
@@ -3783,7 +3912,7 @@ theorem KP.cycleExec (cfg : Cfg) (s : St) : KP s (Pox.Recoco.cycleExec cfg s) :=
         have hp' : KP s s1 := hp
         split
         · exact KP.of_after (b := s1) (KP.same rfl) hp'
-        · exact KP.of_after (KP.resumeGen cfg s1 t _ r) hp'
+        · exact KP.of_after (KP.resumeGen cfg s1 t _ r _) hp'
 
 theorem KP.iter (cfg : Cfg) (s : St) : KP s (Pox.Recoco.iter cfg s) := by
   have h1 : KP s (idleStep cfg s) := by
